@@ -639,15 +639,15 @@ fn shrink_event(op: &Op) -> Vec<Op> {
                 out.push(Op::NewVerifier { v: *v, spec: s });
             }
         }
-        Op::Deliver { msg, to, now_ns, ticks, twin, control } => {
+        Op::Deliver { msg, to, now_ns, ticks, twin, control, key } => {
             if control.is_some() {
-                out.push(Op::Deliver { msg: *msg, to: *to, now_ns: *now_ns, ticks: ticks.clone(), twin: *twin, control: None });
+                out.push(Op::Deliver { msg: *msg, to: *to, now_ns: *now_ns, ticks: ticks.clone(), twin: *twin, control: None, key: *key });
             }
             if *twin {
-                out.push(Op::Deliver { msg: *msg, to: *to, now_ns: *now_ns, ticks: ticks.clone(), twin: false, control: control.clone() });
+                out.push(Op::Deliver { msg: *msg, to: *to, now_ns: *now_ns, ticks: ticks.clone(), twin: false, control: control.clone(), key: *key });
             }
             if !ticks.is_empty() {
-                out.push(Op::Deliver { msg: *msg, to: *to, now_ns: *now_ns, ticks: vec![], twin: *twin, control: control.clone() });
+                out.push(Op::Deliver { msg: *msg, to: *to, now_ns: *now_ns, ticks: vec![], twin: *twin, control: control.clone(), key: *key });
             }
         }
         Op::Fault { src, out: o, kind, other } => {
